@@ -542,7 +542,7 @@ class ModuleEmitter:
     def emit_io_port_wires(self):
         for idx, (name, (value, dir)) in enumerate(self.module.io_ports.items()):
             port_id = idx + len(self.module.ports)
-            if self.module.parent is None:
+            if self.module.parent is None and len(value) > 0:
                 port = self.netlist.io_ports[value[0].port]
                 attrs = port.attrs
                 src_loc = port.src_loc
